@@ -30,7 +30,12 @@ class DeltaImputer(EagerImputer):
             i_sorted = np.argsort(np.abs(des_var_delta))
             return des_var_delta[i_sorted]
 
-        delta_values = [_sort_by_dist(np.arange(dv.n_opts)-vector[i]) for i, dv in enumerate(self._design_vars)]
+        # An existence pattern can have less design variables than the encoder declares overall
+        n_dv = design_vectors.shape[1]
+        if n_dv == 0:
+            return self._return_imputation(int(np.where(matrix_mask)[0][0]), existence)
+        vector = np.array(vector)[:n_dv]
+        delta_values = [_sort_by_dist(np.arange(dv.n_opts)-vector[i]) for i, dv in enumerate(self._design_vars[:n_dv])]
 
         dv_map = self._dv_idx_map[existence]
         n_tries, n_tries_max = 0, self.n_max_tries
